@@ -6,6 +6,7 @@ import (
 	"os"
 	"os/exec"
 	"path/filepath"
+	"sync"
 	"time"
 
 	"github.com/enfein/mieru/v3/pkg/metrics"
@@ -132,5 +133,60 @@ func init() {
 			return 400
 		}
 		return 16
+	}})
+}
+
+// c19RegisterCase: several sessions of a user whose counters do not exist yet
+// start at the same moment. Each registers the user's counters and adds its
+// bytes to what it got back; all of them must have got the same counter, so that
+// the user's total is the sum.
+func c19RegisterCase(c *Ctx) *Result {
+	params := map[string]interface{}{}
+	c.Out.Start("C19", fmt.Sprintf("C19-register/%d/%d", c.Seed, c.Idx), c.Seed, params)
+	res := &Result{Params: params, Obs: map[string]float64{}}
+	rounds := 2500
+	const workers = 8
+	for round := 0; round < rounds; round++ {
+		user := fmt.Sprintf("first-%d-%d-%d", c.Seed, c.Idx, round)
+		group := fmt.Sprintf(metrics.UserMetricGroupFormat, user)
+		start := make(chan struct{})
+		var wg sync.WaitGroup
+		for w := 0; w < workers; w++ {
+			wg.Add(1)
+			go func() {
+				defer wg.Done()
+				<-start
+				m := metrics.RegisterMetric(group, metrics.UserMetricUploadBytes, metrics.COUNTER_TIME_SERIES)
+				m.(*metrics.Counter).Add(1000)
+			}()
+		}
+		close(start)
+		wg.Wait()
+		res.Obs["concurrent_first_registrations"]++
+		g := metrics.GetMetricGroupByName(group)
+		var total int64 = -1
+		if g != nil {
+			if m, ok := g.GetMetric(metrics.UserMetricUploadBytes); ok {
+				total = m.(*metrics.Counter).Load()
+			}
+		}
+		if total != workers*1000 {
+			res.Verdict, res.Sig = Violated, "C19|account|upload-bytes-miscounted|concurrent-first-sessions"
+			res.Detail = fmt.Sprintf("%d sessions of a user without counters started together and added 1000 bytes each to the counter they registered; the user's counter shows %d (round %d)", workers, total, round)
+			res.Shape = shapeHash("register", c.Idx)
+			return res
+		}
+	}
+	res.Shape = shapeHash("register", c.Idx)
+	res.Verdict = Held
+	return res
+}
+
+func init() {
+	register(&Scenario{Name: "C19-register", Run: c19RegisterCase, NeedsReal: true, Cases: func(t string) int {
+		if t == "thorough" {
+			return 200
+		}
+		return 14
 	}})
 }
